@@ -149,7 +149,7 @@ func addMediaRenderCases(c *Corr, rep *Report, src string, pageURL *nurl.URL, re
 		}
 		for _, x := range els {
 			a := distiller.VerifElementAtoms(x)
-			fmt.Fprintf(&sb, " %d %s %s 0 0 0 0 0", ids[x], hx(a.StyleDisplay), b01(a.VisHidden))
+			fmt.Fprintf(&sb, " %d %s %s 0 0 0 0 0 %s", ids[x], hx(a.StyleDisplay), b01(a.VisHidden), b01(distiller.VerifIsForeignRawText(x)))
 			for _, at := range x.Attr {
 				addVal(at.Val, 0)
 			}
